@@ -26,6 +26,9 @@ let stages : (Stdlib.String.t * (Stdlib.String.t list -> n list)) list = [
   "split", (fun f -> show_pieces (split_statements (unhex (List.nth f 0))));
   "parse", (fun f -> show_parse (unhex (List.nth f 0)));
   "spans", (fun f -> show_spans (unhex (List.nth f 0)));
+  "compile", (fun f ->
+     let rec pairs = function k :: v :: r -> (unhex k, unhex v) :: pairs r | _ -> [] in
+     show_compile (pairs (List.tl f)) (unhex (List.hd f)));
 ]
 
 let () =
